@@ -18,6 +18,7 @@ Proof. intros (_ & _ & G & S & T). unfold current, get_global. rewrite G, S, T. 
 Section Generic.
   Variable fx : bool.
   Variable ur : bool.
+  Variable dc : bool.
   Variable sm : levelfilter.
   Variable conf : N -> collector.
 
@@ -52,9 +53,9 @@ Section Generic.
   (** With every flag set, a base op is exactly Model.step. *)
   Lemma xstep_base x o :
     AllTrue x ->
-    xs (fst (xstep fx ur sm conf x (XBase o))) = fst (step fx sm conf (xs x) o) /\
-    snd (xstep fx ur sm conf x (XBase o)) = XO (snd (step fx sm conf (xs x) o)) /\
-    AllTrue (fst (xstep fx ur sm conf x (XBase o))).
+    xs (fst (xstep fx ur dc sm conf x (XBase o))) = fst (step fx sm conf (xs x) o) /\
+    snd (xstep fx ur dc sm conf x (XBase o)) = XO (snd (step fx sm conf (xs x) o)) /\
+    AllTrue (fst (xstep fx ur dc sm conf x (XBase o))).
   Proof.
     intro HA.
     assert (E : forall t s0, xgd fx (ce x) s0 t = get_default fx s0 t) by (intros; apply xgd_true; apply HA).
@@ -107,30 +108,35 @@ Section Generic.
     rewrite Hn. simpl. split; reflexivity.
   Qed.
 
-  Lemma xfinal_alltrue h : ur = true -> forall x, AllTrue x -> AllTrue (xfinal fx ur sm conf x h).
+  Lemma xfinal_alltrue h : ur = true -> forall x, AllTrue x -> AllTrue (xfinal fx ur dc sm conf x h).
   Proof.
     intro Hur. induction h as [|o h IH]; intros x HA; simpl; [exact HA|]. apply IH.
-    destruct o as [o|t cs b].
+    destruct o as [o|t cs b|t cs].
     - apply (xstep_base x o HA).
     - intro u. simpl. rewrite (cb_flag_restored x t cs b Hur u). apply HA.
+    - intro u. simpl. destruct (emit_with sm conf gd_dead (if dc then set_scoped (xs x) (S (scoped (xs x))) else xs x) t cs). simpl. apply HA.
   Qed.
 
   (** Histories whose callbacks return or panic (no re-entrant emission) are, observation by observation and state by
       state, the base histories obtained by forgetting what the callbacks did. *)
   Lemma no_reentry_cons o h : no_reentry (o :: h) -> no_reentry h.
-  Proof. intros H t cs b Hin. apply (H t cs b). right. exact Hin. Qed.
+  Proof.
+    intros [H1 H2]. split.
+    - intros t cs b Hin. apply (H1 t cs b). right. exact Hin.
+    - intros t cs Hin. apply (H2 t cs). right. exact Hin.
+  Qed.
   Lemma xrun_erase h : ur = true -> forall x, AllTrue x -> no_reentry h ->
-    map (fun p => base_obs (fst p)) (xrun fx ur sm conf x h) = map fst (run fx sm conf (xs x) (erase h)).
+    map (fun p => base_obs (fst p)) (xrun fx ur dc sm conf x h) = map fst (run fx sm conf (xs x) (erase h)).
   Proof.
     intro Hur. induction h as [|o h IH]; intros x HA Hn; simpl; [reflexivity|].
-    destruct (xstep fx ur sm conf x o) as [x' ob] eqn:Ex.
+    destruct (xstep fx ur dc sm conf x o) as [x' ob] eqn:Ex.
     destruct (step fx sm conf (xs x) (erase_op o)) as [s' ob'] eqn:Es. simpl.
     assert (G : xs x' = s' /\ base_obs ob = ob' /\ AllTrue x').
-    { destruct o as [o|t cs b]; simpl in Es.
+    { destruct o as [o|t cs b|t cs]; simpl in Es; [| |exfalso; apply (proj2 Hn t cs); left; reflexivity].
       - destruct (xstep_base x o HA) as (H1 & H2 & H3). rewrite Ex in *. simpl in *. rewrite Es in *. simpl in *.
         subst. auto.
       - simpl in Ex.
-        assert (Hb : cb_nested b = None) by (apply (Hn t cs b); left; reflexivity).
+        assert (Hb : cb_nested b = None) by (apply (proj1 Hn t cs b); left; reflexivity).
         destruct (xstep_cb_plain x t cs b HA Hb) as (H1 & H2). rewrite Ex in *. simpl in *. rewrite Es in *. simpl in *.
         split; [exact H1|]. split; [exact H2|].
         intro u. pose proof (cb_flag_restored x t cs b Hur u) as Hc. rewrite Ex in Hc. simpl in Hc. rewrite Hc. apply HA. }
@@ -213,17 +219,59 @@ Section Fixed.
   Qed.
 End Fixed.
 
+(** * Thread teardown: a scope opened (and an emission made) from a thread-local destructor that runs after CURRENT_STATE
+      is destroyed changes nothing for anybody, as long as the scope is counted when opened AND when closed. *)
+Lemma emit_with_pure sm conf (gd : gdfun) s t cs :
+  (forall s0 t0 s' d, gd s0 t0 = (s', d) -> s' = s0) -> thr_eq s (fst (emit_with sm conf gd s t cs)).
+Proof.
+  intro Hp. unfold emit_with, guard_with.
+  destruct (level_enabled sm s cs); [|apply thr_eq_refl].
+  destruct (interest_of conf s cs) as [s0 i] eqn:Ei. apply interest_of_thr_eq in Ei.
+  destruct i.
+  - exact Ei.
+  - destruct (gd s0 t) as [s2 d] eqn:Eg. apply Hp in Eg. subst s2.
+    destruct (enabled_of conf s0 d cs); [|exact Ei].
+    destruct (gd s0 t) as [s3 d3] eqn:Eg3. apply Hp in Eg3. subst s3. exact Ei.
+  - destruct (gd s0 t) as [s2 d] eqn:Eg. apply Hp in Eg. subst s2. exact Ei.
+Qed.
+Lemma gd_dead_pure s0 t0 s' d : gd_dead s0 t0 = (s', d) -> s' = s0.
+Proof. unfold gd_dead. destruct (Nat.eqb (scoped s0) 0); intro H; injection H as <- _; reflexivity. Qed.
+Theorem dead_scope_affects_nobody fx ur sm conf x t cs :
+  let x' := fst (xstep fx ur true sm conf x (XDeadScope t cs)) in
+  thr_eq (xs x) (xs x') /\ (forall u, ce x' u = ce x u) /\ (forall u, current (xs x') u = current (xs x) u).
+Proof.
+  simpl.
+  pose proof (emit_with_pure sm conf gd_dead (set_scoped (xs x) (S (scoped (xs x)))) t cs gd_dead_pure) as He.
+  destruct (emit_with sm conf gd_dead (set_scoped (xs x) (S (scoped (xs x)))) t cs) as [s2 ob]. simpl in *.
+  destruct He as (H1 & H2 & H3 & H4 & H5). simpl in *.
+  assert (T : thr_eq (xs x) (set_scoped s2 (Init.Nat.pred (scoped s2)))).
+  { repeat split; simpl; try assumption. rewrite H4. reflexivity. }
+  split; [exact T|]. split; [reflexivity|]. intro u. apply thr_eq_current. exact T.
+Qed.
+(** The increment is load-bearing: if a scope opened on a torn-down thread were not counted while its guard's drop still
+    decrements, SCOPED_COUNT would reach 0 under a live scope of ANOTHER thread, whose emissions would then take the global
+    fast path (witness: T0 holds a scope on collector 1, the global default is collector 0; T1's destructor opens and
+    closes a scope after teardown; T0 emits). *)
+Definition dead_history : list xop :=
+  [ XBase New; XBase New; XBase (SetGlobal 0 0); XBase (Open 0 (DCol 1)); XDeadScope 1 f1_cs; XBase (Emit 0 f1_cs) ].
+Example dead_scope_count_is_needed :
+  nth 5 (map fst (xrun true true false (Some TRACE) (conf_of_list [all_pass; all_pass]) xinit dead_history)) XONoCurrent
+    = XO (OEmit (Some (DCol 0)) (Some 0)) /\
+  nth 5 (map fst (xrun true true true (Some TRACE) (conf_of_list [all_pass; all_pass]) xinit dead_history)) XONoCurrent
+    = XO (OEmit (Some (DCol 1)) (Some 1)).
+Proof. split; vm_compute; reflexivity. Qed.
+
 (** * Headlines *)
 
 (** "Restored on panic", at the point where a collector callback panics while handling an emission (and the panic is
     caught above the emission): after ANY history — earlier callback panics and re-entrant emissions included — and
     whatever the callback does, every thread's re-entrancy flag is set, and the dispatcher every thread is handed is
     what it was before the emission. *)
-Theorem panic_in_callback_restores ur sm conf :
+Theorem panic_in_callback_restores ur dc sm conf :
   ur = true ->
   forall h t cs b,
-  let x := xfinal true ur sm conf xinit h in
-  let x' := fst (xstep true ur sm conf x (XEmitCb t cs b)) in
+  let x := xfinal true ur dc sm conf xinit h in
+  let x' := fst (xstep true ur dc sm conf x (XEmitCb t cs b)) in
   (forall u, ce x' u = true) /\
   (forall u, current (xs x') u = current (xs x) u) /\
   (forall u, xdefault true x' u = current (xs x) u) /\
@@ -242,12 +290,12 @@ Proof.
 Qed.
 
 (** ... so histories in which callbacks panic refine the C02 specification exactly like histories in which they return. *)
-Theorem spec_refinement_with_callback_panics ur sm conf h :
+Theorem spec_refinement_with_callback_panics ur dc sm conf h :
   ur = true -> no_reentry h -> Nested (erase h) ->
-  Forall2 agrees (map base_obs (map fst (xrun true ur sm conf xinit h))) (aspec ainit (erase h)).
+  Forall2 agrees (map base_obs (map fst (xrun true ur dc sm conf xinit h))) (aspec ainit (erase h)).
 Proof.
   intros Hur Hn Hnest. rewrite map_map.
-  rewrite (xrun_erase true ur sm conf h Hur xinit AllTrue_init Hn). apply spec_refinement_fixed. exact Hnest.
+  rewrite (xrun_erase true ur dc sm conf h Hur xinit AllTrue_init Hn). apply spec_refinement_fixed. exact Hnest.
 Qed.
 
 (** The unwinding half of the guard is load-bearing: if the flag were set back only on normal return, one caught callback
@@ -255,10 +303,10 @@ Qed.
 Definition cb_history : list xop :=
   [ XBase New; XBase (Open 0 (DCol 0)); XEmitCb 0 f1_cs CbPanic; XBase (Emit 0 f1_cs) ].
 Example unwind_guard_is_needed :
-  map fst (xrun true false (Some TRACE) (conf_of_list [all_pass]) xinit cb_history) =
+  map fst (xrun true false true (Some TRACE) (conf_of_list [all_pass]) xinit cb_history) =
     [ XO (ONew 0); XO OUnit; XOEmitCb (Some (DCol 0)) (Some 0) None true; XO (OEmit (Some DNone) None) ] /\
-  current (xs (xfinal true false (Some TRACE) (conf_of_list [all_pass]) xinit cb_history)) 0 = DCol 0 /\
-  map fst (xrun true true (Some TRACE) (conf_of_list [all_pass]) xinit cb_history) =
+  current (xs (xfinal true false true (Some TRACE) (conf_of_list [all_pass]) xinit cb_history)) 0 = DCol 0 /\
+  map fst (xrun true true true (Some TRACE) (conf_of_list [all_pass]) xinit cb_history) =
     [ XO (ONew 0); XO OUnit; XOEmitCb (Some (DCol 0)) (Some 0) None true; XO (OEmit (Some (DCol 0)) (Some 0)) ].
 Proof. repeat split; vm_compute; reflexivity. Qed.
 
@@ -266,10 +314,10 @@ Proof. repeat split; vm_compute; reflexivity. Qed.
     the flag is back afterwards; under the fast path (no scope anywhere) it reaches the global default again. *)
 Definition f1_cs2 : callsite := mk_cs 60 3 0 1.
 Example reentrant_slow_and_fast :
-  map fst (xrun true true (Some TRACE) (conf_of_list [all_pass]) xinit
+  map fst (xrun true true true (Some TRACE) (conf_of_list [all_pass]) xinit
              [ XBase New; XBase (Open 0 (DCol 0)); XEmitCb 0 f1_cs (CbEmit f1_cs2 false); XBase (Emit 0 f1_cs2) ]) =
     [ XO (ONew 0); XO OUnit; XOEmitCb (Some (DCol 0)) (Some 0) (Some None) false; XO (OEmit (Some (DCol 0)) (Some 0)) ] /\
-  map fst (xrun true true (Some TRACE) (conf_of_list [all_pass]) xinit
+  map fst (xrun true true true (Some TRACE) (conf_of_list [all_pass]) xinit
              [ XBase New; XBase (SetGlobal 0 0); XEmitCb 0 f1_cs (CbEmit f1_cs2 true); XBase (Emit 0 f1_cs2) ]) =
     [ XO (ONew 0); XO (OSetGlobal true); XOEmitCb (Some (DCol 0)) (Some 0) (Some (Some 0)) true; XO (OEmit (Some (DCol 0)) (Some 0)) ].
 Proof. split; vm_compute; reflexivity. Qed.
